@@ -2805,6 +2805,11 @@ func (s *ImmuStore) txOffsetAndSize(txID uint64) (int64, int, error) {
 	txOffset := int64(binary.BigEndian.Uint64(cb))
 	txSize := int(binary.BigEndian.Uint32(cb[offsetSize:]))
 
+	// a serialized transaction never exceeds the buffer it was serialized into
+	if txOffset < 0 || txSize > len(s._txbs) {
+		return 0, 0, fmt.Errorf("%w: invalid offset or size of tx %d", ErrCorruptedCLog, txID)
+	}
+
 	return txOffset, txSize, nil
 }
 
